@@ -57,6 +57,12 @@ var InstrTargets = []instr.Target{
 	{File: "pkg/flowcontrols/limiter.go", All: true, Funcs: []string{"upstreamLimiter.Load", "upstreamLimiter.syncLocalFlowControls"}},
 	{File: "pkg/clusters/clusterinfo.go", Funcs: []string{"endpointPickStrategy.Pop", "ClusterInfo.MatchAttributes", "ClusterInfo.Sync"}},
 	{File: "pkg/ratelimiter/limiter/ratelimter.go", Funcs: []string{"rateLimiter.UpdateRateLimitConditionStatus", "rateLimiter.UpstreamConditionHandler", "rateLimiter.calculateUpstreamCondition", "rateLimiter.deleteCondition"}},
+	// the process id is part of every gateway instance's name; names are hashed
+	// (sync.Map of known clients on the server), so a different pid would mean
+	// another iteration order there. In the worker every process is pid 4242.
+	{File: "pkg/ratelimiter/clientsets/clientsets.go", NoYield: true, Patches: []instr.Patch{
+		{Name: "fixed-pid", Count: 1, Old: "os.Getpid()", New: "(os.Getpid()*0 + 4242)"},
+	}},
 	// runtime select among two ready cases is a coin the tape cannot own: the
 	// prober's loops check the cancelled context first (a legal refinement of
 	// the select; the oracle accepts the other outcome too)
